@@ -75,6 +75,11 @@ func sha2pcEvents(helpers map[string]string, enclosing func(*ast.CallExpr) *ast.
 		if sym, ok := helpers[name]; ok {
 			return []string{sym}, true
 		}
+		// a variant of the chunk reader (readChunkLen: the length prefix alone, the body decoded in place)
+		// reads the header of the same chunk
+		if _, isChunk := helpers["readChunk"]; isChunk && strings.HasPrefix(name, "readChunk") {
+			return []string{"?Chunk"}, true
+		}
 		fd := enclosing(call)
 		// methods are recognised by the type of their receiver, not its name
 		if sel, ok := call.Fun.(*ast.SelectorExpr); ok {
